@@ -415,3 +415,41 @@ def _(c):
     c.ensures("list(result) == cart([list(l) for l in self._items])", "values-are-the-product")
     c.no_raise()
     c.modifies()
+
+
+# ---- collectors are independent: what one collector learned (columns from a dict row, rows) never shows up in another, nor in the
+#      list of names the caller passed in -------------------------------------------------------------------------------------------
+@contract(RC + ".__init__", "C20", name="RowCollector.__init__[independent-instances]")
+def _(c):
+    c.bound = "one earlier collector that received a dict row / rows"
+
+    def pre_default(b):
+        first = b.new(RC)
+        b.call(b.getattr(first, "append"), b.dict(dict(p=b.int("vp"), q=b.real("vq"))))
+        return dict(args=[b.obj(RC)], env=dict(first=first, names=None))
+    c.scenario("second-collector-without-columns-after-a-dict-row", pre_default)
+
+    def pre_names(b):
+        names = b.list(["x", "y"])
+        first = b.new(RC, names)
+        b.call(b.getattr(first, "append"), b.list([b.int("vx"), b.real("vy")]))
+        return dict(args=[b.obj(RC), names], env=dict(first=first, names=names))
+    c.scenario("second-collector-from-the-same-name-list", pre_names)
+    c.ensures("rowsof(self) == [] and self.shape() == (0 if names is None else 2, 0)", "starts-empty")
+    c.ensures("not same_object(self._columns, first._columns)", "own-column-list")
+    c.ensures("names is None or list(names) == ['x', 'y']", "caller's-name-list-unchanged")
+    c.no_raise()
+
+
+@contract(RC + ".append", "C20", name="RowCollector.append[dict-creates-columns-on-a-fresh-collector]")
+def _(c):
+    c.bound = "two collectors created without columns"
+
+    def pre(b):
+        first = b.new(RC)
+        b.call(b.getattr(first, "append"), b.dict(dict(p=b.int("vp"), q=b.real("vq"))))
+        return dict(args=[b.new(RC), b.dict(dict(r=b.int("vr"), s=b.real("vs")))], env=dict(first=first))
+    c.scenario("other-keys-than-the-earlier-collector", pre)
+    c.ensures("list(self._columns) == ['r', 's'] and rowsof(self) == [(old(values['r']), old(values['s']))]", "columns-created-from-this-row-only")
+    c.ensures("list(first._columns) == ['p', 'q'] and len(rowsof(first)) == 1", "earlier-collector-untouched")
+    c.no_raise()
